@@ -329,7 +329,7 @@ static void copy_cands (int from, int to, guint s, guint c, int which)
 
 /* ------------------------------------------------------------------ attacker (C03): knows every username, sees every transaction id
  * on the wire, can spoof any source address -- but does not know any ICE password.  Its own addresses are 10.66.x.x. */
-static guint64 atk_s = 1; static unsigned atk_mask = ~0u;
+static guint64 atk_s = 1; static gchar *old_ufrag[4], *old_pwd[4]; static unsigned atk_mask = ~0u;
 static guint32 arnd (void) { atk_s ^= atk_s << 13; atk_s ^= atk_s >> 7; atk_s ^= atk_s << 17; return (guint32) (atk_s >> 16); }
 static gboolean is_atk_addr (const NiceAddress *a) { char ip[64]; nice_address_to_string (a, ip); return !strncmp (ip, "10.66.", 6); }
 static void atk_put (const char *kind, const NiceAddress *f, const NiceAddress *t, const guint8 *d, gsize n)
@@ -428,8 +428,19 @@ static void do_op (char *op)
   else if (!strcmp (a[0], "servermode")) { strncpy (servers[I (1)].mode, a[2], 31); }
   else if (!strcmp (a[0], "stun")) { g_object_set (A[I (1)].agent, "stun-server", a[2], "stun-server-port", (guint) I (3), NULL); T ("api %d stun-server %s:%s", I (1), a[2], a[3]); }
   else if (!strcmp (a[0], "relay")) { gboolean r = nice_agent_set_relay_info (A[I (1)].agent, I (2), I (3), a[4], I (5), "user", "pass", NICE_RELAY_TYPE_TURN_UDP); T ("api %d set_relay_info %d %d %s:%s =%d", I (1), I (2), I (3), a[4], a[5], r); }
-  else if (!strcmp (a[0], "restart")) { gboolean r = nice_agent_restart (A[I (1)].agent); T ("api %d restart =%d", I (1), r); }
-  else if (!strcmp (a[0], "restart_stream")) { gboolean r = nice_agent_restart_stream (A[I (1)].agent, I (2)); T ("api %d restart_stream %d =%d", I (1), I (2), r); }
+  else if (!strcmp (a[0], "restart") || !strcmp (a[0], "restart_stream")) { int i = I (1); guint sid = n > 2 ? I (2) : 1;
+    gchar *u = NULL, *p = NULL; if (nice_agent_get_local_credentials (A[i].agent, sid, &u, &p)) { g_free (old_ufrag[i]); g_free (old_pwd[i]); old_ufrag[i] = u; old_pwd[i] = p; }
+    gboolean r = n > 2 ? nice_agent_restart_stream (A[i].agent, sid) : nice_agent_restart (A[i].agent);
+    if (n > 2) T ("api %d restart_stream %d =%d", i, sid, r); else T ("api %d restart =%d", i, r); }
+  else if (!strcmp (a[0], "oldcheck")) { /* oldcheck,victim : a well-formed check authenticated with the victim's PRE-restart credentials, from the peer's address */
+    int y = I (1), x = 1 - y; if (old_ufrag[y] && A[x].agent && A[y].agent) {
+      GSList *ly = nice_agent_get_local_candidates (A[y].agent, 1, 1), *lx = nice_agent_get_local_candidates (A[x].agent, 1, 1); gchar *ux = NULL, *px = NULL; nice_agent_get_local_credentials (A[x].agent, 1, &ux, &px);
+      if (ly && lx && ux) { char uname[600]; sprintf (uname, "%s:%s", old_ufrag[y], ux); StunAgent sa; StunMessage m; guint8 buf[1500];
+        stun_agent_init (&sa, atk_known, STUN_COMPATIBILITY_RFC5389, STUN_AGENT_USAGE_SHORT_TERM_CREDENTIALS | STUN_AGENT_USAGE_USE_FINGERPRINT);
+        gsize l = stun_usage_ice_conncheck_create (&sa, &m, buf, sizeof buf, (uint8_t *) uname, strlen (uname), (uint8_t *) old_pwd[y], strlen (old_pwd[y]), TRUE, TRUE, 0x6e0000ff, 12345, NULL, STUN_USAGE_ICE_COMPATIBILITY_RFC5245);
+        if (l) atk_put ("oldcheck", &((NiceCandidate *) lx->data)->addr, &((NiceCandidate *) ly->data)->addr, buf, l); }
+      g_free (ux); g_free (px); g_slist_free_full (ly, (GDestroyNotify) nice_candidate_free); g_slist_free_full (lx, (GDestroyNotify) nice_candidate_free); } }
+  else if (!strcmp (a[0], "remotecands")) { GSList *l = nice_agent_get_remote_candidates (A[I (1)].agent, I (2), I (3)); T ("api %d remote_candidates %d %d n=%u", I (1), I (2), I (3), g_slist_length (l)); g_slist_free_full (l, (GDestroyNotify) nice_candidate_free); }
   else if (!strcmp (a[0], "getcreds")) { gchar *u = NULL, *p = NULL; gboolean r = nice_agent_get_local_credentials (A[I (1)].agent, I (2), &u, &p); T ("api %d local_credentials %d =%d %s %s", I (1), I (2), r, u ? u : "-", p ? p : "-"); g_free (u); g_free (p); }
   else if (!strcmp (a[0], "send")) { /* send,i,s,c,len,seed */ guint len = I (4); guint8 *d = g_malloc (len ? len : 1); unsigned h = 5381; for (guint k = 0; k < len; k++) { d[k] = (I (5) * 31 + k * 7 + (k >> 8)) & 0xff; h = (h * 33 + d[k]) & 0xffffff; }
     if (n > 6 && !strcmp (a[6], "stunlike") && len >= 20) { d[0] = 0; d[1] = 1; d[2] = (len - 20) >> 8; d[3] = (len - 20) & 0xff; d[4] = 0x21; d[5] = 0x12; d[6] = 0xa4; d[7] = 0x42; h = 5381; for (guint k = 0; k < len; k++) h = (h * 33 + d[k]) & 0xffffff; }
@@ -465,7 +476,7 @@ int main (void)
     ctx = g_main_context_new (); vsocks = g_ptr_array_new (); inflight = NULL; pkt_serial = 0; next_port = 40000; nagents = 0; nservers = 0; memset (A, 0, sizeof A);
     consec = g_hash_table_new_full (g_str_hash, g_str_equal, g_free, NULL); resp_tokens = g_hash_table_new_full (g_str_hash, g_str_equal, g_free, NULL); blackhole = g_hash_table_new_full (g_str_hash, g_str_equal, g_free, NULL);
     for (int i = 0; i < n_vif; i++) g_free (vif[i]); n_vif = 0;
-    atk_period_us = 0; atk_next_us = G_MAXINT64; reqlog_n = 0;
+    atk_period_us = 0; atk_next_us = G_MAXINT64; reqlog_n = 0; for (int i = 0; i < 4; i++) { g_free (old_ufrag[i]); g_free (old_pwd[i]); old_ufrag[i] = old_pwd[i] = NULL; }
     p_drop = p_dup = 0; d_min_us = d_max_us = 1000; max_consec_loss = 2; vnow_us = 1000000000LL; dispatch_count = 0; trace_pkts = 1; spinning = 0;
     fprintf (hc_out, "%s", id);
     char *op; int aborted = 0;
